@@ -1236,8 +1236,32 @@ def run_carrier_case(case):
 
 # ---------------------------------------------------------------------------- reading through real cards
 def gen_read_case(rng):
-    """a data-block card whose entries use shortcuts, read through the real card classes"""
+    """a card whose entries use shortcuts, read through the real card classes / parsers"""
     r = rng.random()
+    q = rng.random()
+    if q < 0.03:
+        # three shortcuts in a row
+        toks = [{"k": "n", "t": rng.choice(["1", "2.5", "7"])}]
+        for _ in range(3):
+            toks.append({"k": "r", "t": rng.choice(["r", "2r", "R", "3R"])})
+        if rng.random() < 0.5:
+            toks.append({"k": "n", "t": "4"})
+        return {"card": rng.choice(["e", "surf"]), "toks": toks}
+    if q < 0.06:
+        # an interpolation that ends at zero
+        toks = [{"k": "n", "t": rng.choice(["1", "4", "-2"])}, {"k": "i", "t": rng.choice(["i", "3i", "1I"])},
+                {"k": "n", "t": rng.choice(["0", "0.0", "00"])}]
+        if rng.random() < 0.5:
+            toks.append({"k": "n", "t": "5"})
+        return {"card": rng.choice(["e", "surf"]), "toks": toks}
+    if q < 0.09:
+        # a multiplier that is not a whole number
+        toks = [{"k": "n", "t": rng.choice(["2", "4", "10"])}, {"k": "m", "t": rng.choice(["0.5m", "2.5M", "1e1m"])},
+                {"k": "n", "t": "3"}]
+        return {"card": "surf", "toks": toks}
+    if q < 0.2:
+        toks = gen_tokens(rng, allow_m=True, errors=0.0, max_groups=4)
+        return {"card": "surf", "toks": toks}
     if r < 0.35:
         # TR card: 3 displacement + 9 rotation entries
         vals = [rng.choice(["0", "1", "2", "0.5"]) for _ in range(3)] + ["1", "0", "0", "0", "1", "0", "0", "0", "1"]
@@ -1292,15 +1316,25 @@ def run_read_case(case):
                 surfs = [f"{i} so {i}" for i in range(1, n + 1)]
                 pr = mp.read_problem("title\n" + "\n".join(cells) + "\n\n" + "\n".join(surfs) + "\n\nvol " + text + "\n\n")
                 vals = [c.volume for c in pr.cells]
+            elif case["card"] == "surf":
+                from montepy.input_parser.surface_parser import SurfaceParser
+                inp = Input(("1 so " + text).split("\n"), BlockType.SURFACE)
+                tree = SurfaceParser().parse(inp.tokenize(), inp)
+                if tree is None:
+                    return {"kind": "rejected", "detail": "SurfaceParser"}
+                vals = [n.value for n in tree["data"]]
             else:
                 obj = parse_data(Input(["e14 " + text], BlockType.DATA))
                 vals = [n.value for n in obj._tree["data"]]
                 obj.format_for_mcnp_input((6, 2, 0))
         except Exception as e:
             from montepy.errors import ParsingError, MalformedInputError
-            if isinstance(e, (ParsingError,)) or (isinstance(e, MalformedInputError) and "follow a jump" in str(e)):
-                return None        # a clean rejection is C12's business
+            if isinstance(e, (ParsingError, MalformedInputError)):
+                # the list is one the manual gives a meaning to ([want] above): refusing it is not reading it
+                return {"kind": "rejected", "detail": type(e).__name__ + ": " + str(e)[:80]}
             return {"kind": "exception:" + type(e).__name__, "detail": str(e)[:120]}
+    if any(isinstance(v, str) for v in vals):
+        return {"kind": "misread:word", "values": [str(v) for v in vals], "want": [str(x) for x in want]}
     k = spec_matches(want, vals, allow_trailing=True)
     if k:
         return {"kind": "misread:" + k, "values": [str(v) for v in vals], "want": [str(x) for x in want]}
@@ -1456,3 +1490,530 @@ def analyse(fcase):
     if fcase.get("stream") == "carrier":
         return analyse_carrier(c)
     return None
+
+
+# ---------------------------------------------------------------------------- TR cards and surface constants
+def gen_direct_case(rng):
+    """a TR card (12 entries) or a surface whose constants are written with shortcuts, edited through the API"""
+    if rng.random() < 0.6:
+        vals = [rng.choice(["0", "1", "2", "0.5"]) for _ in range(3)] + ["1", "0", "0", "0", "1", "0", "0", "0", "1"]
+        toks = []
+        i = 0
+        while i < len(vals):
+            run = 1
+            while i + run < len(vals) and vals[i + run] == vals[i]:
+                run += 1
+            toks.append({"k": "n", "t": vals[i]})
+            if run > 1 and rng.random() < 0.8:
+                toks.append({"k": "r", "t": (str(run - 1) if run > 2 or rng.random() < 0.5 else "") + "r"})
+                i += run
+            else:
+                i += 1
+        edits = [[rng.randrange(12), rng.choice([0.0, 1.0, 2.0, 0.25, -1.0])] for _ in range(rng.choice([0, 1, 1, 2]))]
+        return {"card": "tr", "toks": toks, "edits": edits}
+    # a general quadric: 10 constants
+    n = 10
+    toks = gen_card_tokens(rng, "vol", n)
+    toks = [t for t in toks if t["k"] != "j"]
+    want = spec.expand_shortcuts(spec.tokens(text_of(toks)))
+    while len(want) < n:
+        toks.append({"k": "n", "t": rng.choice(["1", "2", "0.5"])})
+        want = spec.expand_shortcuts(spec.tokens(text_of(toks)))
+    edits = [[rng.randrange(n), rng.choice([0.5, 1.0, 3.0, 7.25, -2.0])] for _ in range(rng.choice([0, 1, 1, 2]))]
+    return {"card": "gq", "toks": toks, "edits": edits}
+
+
+def run_direct_case(case):
+    """-> None | failure dict | 'skip'"""
+    text = text_of(case["toks"])
+    try:
+        want = spec.expand_shortcuts(spec.tokens(text))
+    except (TypeError, ValueError):
+        return "skip"
+    if not all(isinstance(x, Fraction) for x in want):
+        return "skip"
+    if case["card"] == "tr":
+        if len(want) != 12:
+            return "skip"
+        prob = f"title\n1 0 -1\n\n1 so 1\n\nmode n\ntr5 {text}\n\n"
+    else:
+        if len(want) != 10:
+            return "skip"
+        prob = f"title\n1 0 -1\n\n1 gq {text}\n\nmode n\n\n"
+    with warnings.catch_warnings():
+        warnings.simplefilter("ignore")
+        try:
+            pr = mp.read_problem(prob)
+        except Exception as e:
+            return {"kind": "exception:" + type(e).__name__, "stage": "read"}
+        try:
+            if case["card"] == "tr":
+                t = pr.transforms[5]
+                cur = [float(x) for x in t.displacement_vector] + [float(x) for x in t.rotation_matrix]
+                k = spec_matches(want, cur, allow_trailing=False)
+                if k:
+                    return {"kind": "misread:" + k, "stage": "read", "values": [str(v) for v in cur]}
+                for i, v in case["edits"]:
+                    if i < 3:
+                        d = t.displacement_vector.copy()
+                        d[i] = v
+                        t.displacement_vector = d
+                    else:
+                        m = t.rotation_matrix.copy()
+                        m[i - 3] = v
+                        t.rotation_matrix = m
+                    cur[i] = v
+                name = "TR5"
+            else:
+                s = pr.surfaces[1]
+                cur = [float(x) for x in s.surface_constants]
+                k = spec_matches(want, cur, allow_trailing=False)
+                if k:
+                    return {"kind": "misread:" + k, "stage": "read", "values": [str(v) for v in cur]}
+                for i, v in case["edits"]:
+                    c = list(s.surface_constants)
+                    c[i] = v
+                    s.surface_constants = c
+                    cur[i] = v
+                name = "1"
+        except Exception as e:
+            return "skip"
+        try:
+            out = mp.write_problem(pr, "direct.i")
+        except Exception as e:
+            return {"kind": "exception:" + type(e).__name__, "stage": "write"}
+    sp = spec.split_file(out)
+    toks = None
+    blk = 2 if case["card"] == "tr" else 1
+    if len(sp["blocks"]) > blk:
+        for card in sp["blocks"][blk]:
+            tk = spec.tokens(card.text)
+            if tk and tk[0] == name:
+                toks = tk[1:] if case["card"] == "tr" else tk[2:]
+    if toks is None:
+        return {"kind": "card-missing", "stage": "write"}
+    try:
+        sv = spec.expand_shortcuts(toks)
+    except (TypeError, ValueError, ZeroDivisionError, OverflowError):
+        return {"kind": "invalid-token", "stage": "write", "text": " ".join(toks)}
+    if case["card"] == "tr" and len(sv) == 13:
+        sv = sv[:12]
+    k = spec_matches(sv, cur, allow_trailing=False)
+    if k:
+        return {"kind": k, "stage": "write", "text": " ".join(toks), "values": [str(v) for v in cur]}
+    return None
+
+
+# ---------------------------------------------------------------------------- every position
+def sweep_cases(rng, wide=False):
+    """one generated list x (edit | insert | delete | unset) at every position"""
+    which = rng.choice(["data", "surf", "surf"])
+    toks = gen_tokens(rng, allow_m=(which == "surf"), wide=wide, errors=0.0, max_groups=rng.choice([2, 3, 4]))
+    seps = seps_for(rng, len(toks))
+    ln, err = real_parse(text_of(toks, seps), which)
+    if ln is None or any(n is None for n in ln.nodes):
+        return []
+    n = len(list(ln))
+    if n > (60 if wide else 26):
+        return []
+    out = []
+    v = rng.choice(EDIT_VALUES)
+    for p in range(n + 1):
+        ops = [["ins", p, v, rng.random() < 0.7]]
+        if p < n:
+            ops += [["set", p, v], ["del", p], ["none", p]]
+        for op in ops:
+            out.append({"which": which, "toks": toks, "seps": seps, "rounds": [[op]]})
+    return out
+
+
+# ---------------------------------------------------------------------------- shrinking of the other streams
+def shrink_carrier(case, kind):
+    def bad(c):
+        try:
+            r = run_carrier_case(c)
+        except Exception:
+            return False
+        return r["fail"] is not None and r["fail"]["kind"] == kind
+    cur = copy.deepcopy(case)
+    changed = True
+    while changed:
+        changed = False
+        for i in range(len(cur["ops"]) - 1, -1, -1):
+            c = copy.deepcopy(cur)
+            del c["ops"][i]
+            if bad(c):
+                cur, changed = c, True
+        for card in sorted(cur["cards"]):
+            if len(cur["cards"]) > 1:
+                c = copy.deepcopy(cur)
+                del c["cards"][card]
+                c["ops"] = [o for o in c["ops"] if not (o[0] == "set" and o[1] == card)]
+                if c["cards"] and bad(c):
+                    cur, changed = c, True
+        if cur.get("writes", 1) > 1:
+            c = dict(copy.deepcopy(cur), writes=1)
+            if bad(c):
+                cur, changed = c, True
+    return cur
+
+
+def shrink_tokens(case, bad):
+    cur = copy.deepcopy(case)
+    changed = True
+    while changed:
+        changed = False
+        i = len(cur["toks"]) - 1
+        while i >= 0:
+            for width in (1, 2, 3):
+                if i + width > len(cur["toks"]):
+                    continue
+                c = copy.deepcopy(cur)
+                del c["toks"][i:i + width]
+                if c["toks"] and bad(c):
+                    cur, changed = c, True
+                    break
+            i -= 1
+        if cur.get("edits"):
+            for i in range(len(cur["edits"]) - 1, -1, -1):
+                c = copy.deepcopy(cur)
+                del c["edits"][i]
+                if bad(c):
+                    cur, changed = c, True
+    return cur
+
+
+# ---------------------------------------------------------------------------- reading: model vs real parser
+def exp_case(rng, wide):
+    which = rng.choice(["data", "surf"])
+    toks = gen_tokens(rng, allow_m=(which == "surf"), wide=wide, errors=0.06)
+    if rng.random() < 0.05:
+        i = [j for j, t in enumerate(toks) if t["k"] in ("i", "l") and j + 1 < len(toks)]
+        if i:
+            toks[rng.choice(i) + 1] = {"k": "n", "t": "0"}
+    return {"which": which, "toks": toks}
+
+
+def exp_compare(case, ans):
+    """-> None or a description of the disagreement between the model's reading and the real parser's"""
+    merr, mnodes, mvals, msvals = parse_exp_answer(ans)
+    ln, rerr = real_parse(text_of(case["toks"]), case["which"])
+    if ln is not None and any(n is None for n in ln.nodes):
+        return None
+    if merr != rerr:
+        return {"what": "error class", "model": merr, "real": rerr}
+    if merr:
+        return None
+    d = compare_reading(mnodes, dump_parsed(ln))
+    if d:
+        return {"what": d, "model": ans[:300]}
+    # the model's own independent expansion against spec.py's
+    sv = spec_values(text_of(case["toks"]))
+    if msvals is not None and all(x == "J" or isinstance(x, Fraction) for x in sv):
+        mv = model_vals_to_spec(msvals)
+        if len(mv) != len(sv) or any(not (a == b or (isinstance(a, Fraction) and isinstance(b, Fraction) and spec.close(a, b)))
+                                     for a, b in zip(mv, sv)):
+            return {"what": "Shortcut.spec_expand vs spec.expand_shortcuts", "model": [str(x) for x in mv],
+                    "spec": [str(x) for x in sv]}
+    return None
+
+
+# ---------------------------------------------------------------------------- replay and run
+def check_fcase(fc):
+    """re-run a recorded failing case; -> failure dict or None"""
+    st = fc.get("stream")
+    c = fc.get("case")
+    if st in ("bare", "sweep"):
+        return bare_fails(c)
+    if st == "carrier":
+        return run_carrier_case(c)["fail"]
+    if st == "read":
+        return run_read_case(c)
+    if st == "direct":
+        r = run_direct_case(c)
+        return None if r == "skip" else r
+    if st == "exp":
+        ans = vlib.model_ask("Shortcut", ["exp " + ",".join(tok_request(t) for t in c["toks"])])[0]
+        return exp_compare(c, ans)
+    if st == "upd":
+        ans = vlib.model_ask("Shortcut", [c["request"]])[0]
+        return None if ans == c["answer"] else {"kind": "model answer changed", "model": ans}
+    return None
+
+
+def replay(ctx, path):
+    with open(path) as fh:
+        fc = json.load(fh)
+    vlib.coq_make(["Model/Shortcut.vo"])
+    f = check_fcase(fc)
+    if f:
+        print(f"REPLAY property=C08 still fails: {json.dumps(f, default=str)[:300]}")
+        print(f"VIOLATION property=C08 replay={path}")
+        return 1
+    print("REPLAY property=C08 passes")
+    return 0
+
+
+def run(ctx):
+    quick = ctx.tier == "quick"
+    n_exp = 700 if quick else 20000
+    n_bare = 900 if quick else 40000
+    n_sweep = 22 if quick else 700
+    n_carrier = 170 if quick else 5000
+    n_read = 500 if quick else 12000
+    n_direct = 120 if quick else 3000
+    ctx.prove()
+    ok, log = vlib.coq_make(["Model/Shortcut.vo"])
+    if not ok:
+        ctx.broken_obligations.append({"obligation": "Model/Shortcut.vo builds", "detail": log[-800:]})
+        return ctx.finish(vlib.KERNEL_TB, [], "model did not build")
+    dist = {"exp": {"cases": 0, "errors": {}, "tokens": 0, "kinds": {}},
+            "bare": {"cases": 0, "updates": 0, "skipped": {}, "values": 0, "kinds": {}, "recompressed_shortcuts": 0,
+                     "ops": {}},
+            "sweep": {"lists": 0, "cases": 0, "ops": {}},
+            "carrier": {"cases": 0, "cards": {}, "ops": {}, "in_situ_updates": 0, "skipped": 0},
+            "read": {"cases": 0, "cards": {}, "meaningless": 0},
+            "direct": {"cases": 0, "cards": {}, "skipped": 0, "edited": 0},
+            "failure_kinds": {}, "corpus": 0}
+    all_reqs, all_answers = [], []
+    corr_bad = []
+
+    def bump(d, k, n=1):
+        d[k] = d.get(k, 0) + n
+
+    def record_failure(stream, case, fail, shrunk=True):
+        bump(dist["failure_kinds"], stream + ":" + str(fail.get("kind")))
+        ctx.fail({"stream": stream, "case": case, "kind": fail.get("kind"), "detail": fail})
+
+    # ---- corpus: minimised past failures (fixed defects must stay fixed), run first
+    cdir = os.path.join(vlib.VERIF, "corpus", "C08")
+    if os.path.isdir(cdir):
+        for f in sorted(os.listdir(cdir)):
+            if not f.endswith(".json"):
+                continue
+            with open(os.path.join(cdir, f)) as fh:
+                fc = json.load(fh)
+            dist["corpus"] += 1
+            ctx.count_case(("corpus", f), nontrivial=True)
+            try:
+                fl = check_fcase(fc)
+            except Exception as e:
+                fl = {"kind": "exception:" + type(e).__name__}
+            if fl:
+                record_failure(fc.get("stream"), fc.get("case"), dict(fl, corpus=f))
+
+    # ---- reading: model vs the real parsers (DataParser and SurfaceParser)
+    ecases = [exp_case(random.Random(f"{ctx.seed}:C08:e:{i}"), wide=(i % 5 == 0)) for i in range(n_exp)]
+    ereqs = ["exp " + ",".join(tok_request(t) for t in c["toks"]) for c in ecases]
+    eans = vlib.model_ask("Shortcut", ereqs)
+    all_reqs += ereqs
+    all_answers += eans
+    for c, a in zip(ecases, eans):
+        ctx.cov["programs"] += 1
+        ctx.cov["disagreements_checked"] += 1
+        dist["exp"]["cases"] += 1
+        dist["exp"]["tokens"] += len(c["toks"])
+        for t in c["toks"]:
+            bump(dist["exp"]["kinds"], t["k"])
+        bump(dist["exp"]["errors"], a.split(" ")[0])
+        ctx.count_case(("exp", c["which"], text_of(c["toks"])), nontrivial=len(c["toks"]) > 1)
+        d = exp_compare(c, a)
+        if d:
+            corr_bad.append({"stream": "exp", "case": c, "detail": d})
+    if ecases:
+        ctx.sample({"stream": "exp", "list": text_of(ecases[0]["toks"]), "model": eans[0][:200]})
+
+    # ---- bare ListNodes: generated edit scripts + every position
+    bcases = []
+    for i in range(n_bare):
+        bcases.append(("bare", gen_bare_case(random.Random(f"{ctx.seed}:C08:b:{i}"), wide=(i % 7 == 0))))
+    for i in range(n_sweep):
+        sc_ = sweep_cases(random.Random(f"{ctx.seed}:C08:s:{i}"), wide=(not quick and i % 9 == 0))
+        if sc_:
+            dist["sweep"]["lists"] += 1
+        for c in sc_:
+            bcases.append(("sweep", c))
+    results = []
+    for stream, c in bcases:
+        try:
+            r = run_bare_case(c)
+        except Exception as e:
+            r = {"corr": [], "fail": {"kind": "harness:" + type(e).__name__, "round": -1}, "pending": [], "skipped": None,
+                 "updates": 0, "nvals": 0, "kinds": set(), "recompressed": 0}
+        results.append(r)
+        d = dist[stream]
+        d["cases"] += 1
+        for rd in c["rounds"]:
+            for op in rd:
+                bump(d["ops"], op[0])
+        if stream == "bare":
+            d["updates"] += r["updates"]
+            d["values"] += r["nvals"]
+            d["recompressed_shortcuts"] += r["recompressed"]
+            for k in r["kinds"]:
+                bump(d["kinds"], k)
+            if r["skipped"]:
+                bump(d["skipped"], str(r["skipped"]))
+        ctx.count_case((stream, c["which"], text_of(c["toks"], c.get("seps")), json.dumps(c["rounds"])),
+                       nontrivial=bool(r["kinds"]) and r["updates"] > 0)
+    reqs, answers = finish_cases(results)
+    all_reqs += reqs
+    all_answers += answers
+    ctx.cov["programs"] += len(reqs)
+    ctx.cov["disagreements_checked"] += len(reqs)
+    nfail = 0
+    for (stream, c), r in zip(bcases, results):
+        for d in r["corr"]:
+            corr_bad.append({"stream": stream, "case": c, "detail": d})
+        if r["fail"] and nfail < 40:
+            nfail += 1
+            small = shrink_bare(c, r["fail"]["kind"])
+            f2 = bare_fails(small) or r["fail"]
+            record_failure(stream, small, f2)
+    for (stream, c), r in list(zip(bcases, results))[:2]:
+        ctx.sample({"stream": stream, "list": text_of(c["toks"]), "rounds": c["rounds"],
+                    "answers": [a[:160] for a in r.get("answers", [])][:2]})
+
+    # ---- real carriers: data-block IMP / VOL / U / LAT / FILL with cells edited, added, removed, re-ordered
+    cres = []
+    ccases = [gen_carrier_case(random.Random(f"{ctx.seed}:C08:c:{i}"), wide=(not quick and i % 6 == 0))
+              for i in range(n_carrier)]
+    for c in ccases:
+        try:
+            r = run_carrier_case(c)
+        except Exception as e:
+            r = {"corr": [], "fail": {"kind": "harness:" + type(e).__name__}, "pending": [], "skipped": None, "obs": 0,
+                 "cards": sorted(c["cards"])}
+        cres.append(r)
+        dist["carrier"]["cases"] += 1
+        dist["carrier"]["in_situ_updates"] += r["obs"]
+        dist["carrier"]["skipped"] += bool(r["skipped"])
+        for k in c["cards"]:
+            bump(dist["carrier"]["cards"], k)
+        for op in c["ops"]:
+            bump(dist["carrier"]["ops"], op[0])
+        ctx.count_case(("carrier", json.dumps(c, sort_keys=True)), nontrivial=bool(c["ops"]) and not r["skipped"])
+    reqs, answers = finish_cases(cres)
+    all_reqs += reqs
+    all_answers += answers
+    ctx.cov["programs"] += len(reqs)
+    ctx.cov["disagreements_checked"] += len(reqs)
+    nfail = 0
+    for c, r in zip(ccases, cres):
+        for d in r["corr"]:
+            corr_bad.append({"stream": "carrier", "case": c, "detail": d})
+        if r["fail"] and nfail < 12:
+            nfail += 1
+            small = shrink_carrier(c, r["fail"]["kind"])
+            try:
+                f2 = run_carrier_case(small)["fail"] or r["fail"]
+            except Exception:
+                f2 = r["fail"]
+            record_failure("carrier", small, f2)
+    if ccases:
+        ctx.sample({"stream": "carrier", "cards": {k: text_of(v) for k, v in ccases[0]["cards"].items()},
+                    "ops": ccases[0]["ops"]})
+
+    # ---- reading through real cards (TR, VOL, generic data card, surface constants)
+    nfail = 0
+    for i in range(n_read):
+        c = gen_read_case(random.Random(f"{ctx.seed}:C08:r:{i}"))
+        dist["read"]["cases"] += 1
+        bump(dist["read"]["cards"], c["card"])
+        ctx.count_case(("read", c["card"], text_of(c["toks"])), nontrivial=any(t["k"] != "n" for t in c["toks"]))
+        try:
+            f = run_read_case(c)
+        except Exception as e:
+            f = {"kind": "harness:" + type(e).__name__}
+        if f and nfail < 40:
+            nfail += 1
+            kind = f["kind"]
+
+            def bad(cc, kind=kind):
+                try:
+                    g = run_read_case(cc)
+                except Exception:
+                    return False
+                return g is not None and g["kind"] == kind
+            small = shrink_tokens(c, bad)
+            record_failure("read", small, run_read_case(small) or f)
+
+    # ---- TR cards and surface constants edited through the API, written by write_to_file, re-read by spec.py
+    nfail = 0
+    for i in range(n_direct):
+        c = gen_direct_case(random.Random(f"{ctx.seed}:C08:d:{i}"))
+        try:
+            f = run_direct_case(c)
+        except Exception as e:
+            f = {"kind": "harness:" + type(e).__name__}
+        dist["direct"]["cases"] += 1
+        bump(dist["direct"]["cards"], c["card"])
+        if f == "skip":
+            dist["direct"]["skipped"] += 1
+            continue
+        dist["direct"]["edited"] += bool(c["edits"])
+        ctx.count_case(("direct", json.dumps(c, sort_keys=True)), nontrivial=bool(c["edits"]))
+        if f and nfail < 12:
+            nfail += 1
+            kind = f["kind"]
+
+            def bad(cc, kind=kind):
+                try:
+                    g = run_direct_case(cc)
+                except Exception:
+                    return False
+                return isinstance(g, dict) and g["kind"] == kind
+            small = shrink_tokens(c, bad)
+            g = run_direct_case(small)
+            record_failure("direct", small, g if isinstance(g, dict) else f)
+
+    # ---- the extracted model against Coq's own evaluation
+    nx, bad = vlib.vm_crosscheck("Shortcut", all_reqs, all_answers, sample=40 if quick else 250, seed=ctx.seed)
+    if bad:
+        ctx.broken_obligations.append({"obligation": "extraction cross-check Shortcut", "detail": bad[:2]})
+    if corr_bad:
+        first = corr_bad[0]
+        ctx.broken_obligations.append({
+            "obligation": "correspondence Shortcut.v vs ListNode / ShortcutNode / shortcut grammar",
+            "detail": {"n": len(corr_bad), "first": {"stream": first["stream"], "detail": first["detail"],
+                                                     "list": text_of(first["case"]["toks"]) if "toks" in first["case"]
+                                                     else {k: text_of(v) for k, v in first["case"].get("cards", {}).items()},
+                                                     "case": first["case"]}}})
+
+    # ---- known findings: replay the committed ones
+    for fd in ctx.findings:
+        if fd.get("status") == "open" and fd.get("replay"):
+            try:
+                with open(os.path.join(vlib.VERIF, fd["replay"])) as fh:
+                    fc = json.load(fh)
+                fd["_reproduced"] = check_fcase(fc) is not None
+            except Exception:
+                fd["_reproduced"] = False
+
+    tb = vlib.KERNEL_TB + [
+        "modelled, not verified: ShortcutNode.__init__/_expand_*, consume_edge_node/_can_consume_node/"
+        "_is_valid_interpolate_edge, _describes_its_values, _format_expanded/_format_jump/_format_repeat/_format_multiply/"
+        "_format_interpolate, ListNode.update_with_new_values/_expand_shortcuts/format and the grammar rules "
+        "number_sequence/shortcut_start/shortcut_sequence/shortcut_phrase as coq/Model/Shortcut.v (values: binary64 -> "
+        "exact rationals); NOT modelled (inputs of the model, taken from the real objects per case): the text "
+        "ValueNode.format gives every value leaf and the multiplier (C05), log/pow decisions of nILOG, the lexer",
+        "spec.py (independent MCNP reader: tokens, read_number, expand_shortcuts) is the oracle of the search",
+        f"vm_compute cross-check of {nx} model requests",
+    ]
+    assumptions = [
+        "trailing jumps left off a written list mean the same as written jumps (MCNP fills missing entries with the "
+        "default); 'u 0' and a jump mean the same universe",
+        "C08_recompress_partial has the side condition format_ok (every printed leaf text is one blank-terminated "
+        "word, paddings are blank); the model reports it per case (codes), the oracle judges the real text",
+        "new value nodes passed to update_with_new_values are pairwise distinct objects",
+        "nILOG values are compared numerically (binary64 log/pow) only by the oracle; the model keeps them symbolic",
+    ]
+    return ctx.finish(
+        tb, assumptions,
+        "cases = token lists from NL(x) (numbers, nJ, nR, xM, nI, nILOG; counts absent/0/1/2..120; adjacent and chained "
+        "shortcuts; shortcuts at either end) read by DataParser/SurfaceParser; the same lists after edit scripts "
+        "(set/insert/delete/unset/move/duplicate) and after one edit at every position; data-block IMP/VOL/U/LAT/FILL "
+        "cards of whole problems after API edits, cell removal, addition and re-ordering, written by write_to_file; "
+        "TR cards and surface constants edited in place.  distinct = distinct (parser, text, edits) or problem; "
+        "non-trivial = the list contains a shortcut and at least one update ran (or an edit was applied)",
+        extra={"input_distribution": dist, "correspondence_mismatches": len(corr_bad)})
